@@ -179,11 +179,11 @@ def _native_main():
     res = []
 
     import os
-    out = os.fdopen(os.dup(1), 'w')     # evaluated expressions may close the standard streams (exit() does)
+    sink = os.fdopen(os.dup(1), "w")     # evaluated expressions may close the standard streams (exit() does)
 
     def emit(name, ok, detail=None):
-        out.write('NATIVE ' + json.dumps({'name': name, 'ok': bool(ok), 'detail': detail}, default=repr) + '\n')
-        out.flush()
+        sink.write("NATIVE " + json.dumps({'name': name, 'ok': bool(ok), 'detail': detail}, default=repr) + '\n')
+        sink.flush()
 
     # A: allow-list
     sb = safe_builtins()
